@@ -83,6 +83,9 @@ mod utils;
 /// The value type used by Tera and supporting types (`Key`, `Map`, `Number`, `ValueKind`).
 pub mod value;
 pub(crate) mod vm;
+#[cfg(tera_verif)]
+#[doc(hidden)]
+pub mod verif;
 
 pub use crate::tera::{EscapeFn, Tera};
 pub use args::{ArgFromValue, Kwargs};
